@@ -204,3 +204,10 @@ def check(run, replay=None):
                        'below/between/above. Extracted model (with the abstract machine run alongside), C++ and the Python oracle are compared on every call list, the final '
                        'lists and the object table; non-trivial = distinct history')
     vlib.correspond(run, 'handlers', 'h_handlers', 'w64', 'C14', cases, oracle, None)
+    # second sentence of the property: node-level delivery (messages the library consumes are still passed on, each message once,
+    # TP control/data frames never), through the shared node harness and model
+    if not replay or any(c.startswith('NODE') for c in cases):
+        import c14_node
+        ncases = [c for c in cases if c.startswith('NODE')] if replay else c14_node.gen_node(run.seed, run.tier)
+        for fs in ('w64', 'w32'):
+            vlib.correspond(run, 'delivery-' + fs, 'h_node', fs, 'NODE', ncases, c14_node.oracle_node, None, model_args=[fs])
